@@ -1,6 +1,7 @@
 import PkgModel.Generated.PySrc
 import PkgModel.PyMarker
 import PkgProofs.Lemmas.PyRt
+import PkgProofs.Lemmas.SrcRobust
 /-!
 # Translated source of `packaging.markers` (formatting, equality, hash, `extra` normalisation) = the model
 
@@ -131,32 +132,29 @@ theorem format_list_general (n : Nat) (l : List Mk.M) (first : Bool)
       mapM_map_ok (fun m => Gen.PySrc._format_marker__fuel n m (.bool false)) ofM (fun m => .str (Mk.fmtM m false)) l ih,
       pure_ok, List.map_map]
     rfl
-  have hf : ∀ s : Str, (if first = true then (Except.ok (PyVal.str s) : M PyVal) else do
-        let a ← add (PyVal.str [40]) (PyVal.str s)
-        add a (PyVal.str [41])) = .ok (.str (Mk.wrapParens first s)) := by
-    intro s; cases first <;> simp [Mk.wrapParens, add]
-  have htail : (do
-      let inner ← genexp (fun m => Gen.PySrc._format_marker__fuel n m (PyVal.bool false)) (PyVal.list (l.map ofM))
-      if first = true then str_join (PyVal.str [32]) inner
-        else do
-          let a ← str_join (PyVal.str [32]) inner
-          let b ← add (PyVal.str [40]) a
-          add b (PyVal.str [41])) = .ok (.str (Mk.wrapParens first (Py.join [32] (Mk.fmtEach l)))) := by
-    rw [hg, fmtEach_eq_map]
-    simp only [ok_bind, str_join_iter]
-    exact hf _
+  -- symbolic evaluation: nothing below names the order of the `isinstance` dispatch or the way the parentheses are added
+  have hx1 : ∀ x, l = [x] → isinstance (ofM x) ["list", "tuple"] = false := by
+    intro x hx
+    have := hl x hx
+    cases x <;> simp_all [Mk.isListOrTuple, ofM, isinstance_str, isinstance_list, isinstance_tuple, ofAtom]
+  rw [fmtEach_eq_map]
+  -- keep the formatted pieces opaque, so that joining them is one rewrite whatever the shape of `l`
+  generalize hL : l.map (fun m => Mk.fmtM m false) = L at hg ⊢
   rcases l with _ | ⟨x, _ | ⟨y, r⟩⟩
-  · simpa [Gen.PySrc._format_marker__fuel, ofML, ofMs_eq_map, isinstance_list, PyRt.eq, s_space, s_lpar, s_rpar] using htail
-  · have hx := hl x rfl
-    cases x with
-    | atom a => simp [Mk.isListOrTuple] at hx
-    | list k => simp [Mk.isListOrTuple] at hx
-    | bool t =>
-      simpa [Gen.PySrc._format_marker__fuel, ofML, ofMs_eq_map, isinstance_list, isinstance_str, PyRt.eq, s_space, s_lpar,
-        s_rpar, ofM] using htail
+  · simp only [List.map_nil] at hg
+    cases first <;>
+      src_simp [Gen.PySrc._format_marker__fuel, ofML, ofMs_eq_map, isinstance_list, PyRt.eq, s_space, s_lpar, s_rpar, hg,
+        str_join_iter, Mk.wrapParens, add]
+  · have hx := hx1 x rfl
+    simp only [List.map_cons, List.map_nil] at hg
+    cases first <;>
+      src_simp [Gen.PySrc._format_marker__fuel, ofML, ofMs_eq_map, isinstance_list, PyRt.eq, s_space, s_lpar, s_rpar, hg, hx,
+        str_join_iter, Mk.wrapParens, add]
   · have hr : ¬ ((r.length : Int) + 1 + 1 = 1) := by omega
-    simpa [Gen.PySrc._format_marker__fuel, ofML, ofMs_eq_map, isinstance_list, PyRt.eq, s_space, s_lpar, s_rpar, hr]
-      using htail
+    simp only [List.map_cons] at hg
+    cases first <;>
+      src_simp [Gen.PySrc._format_marker__fuel, ofML, ofMs_eq_map, isinstance_list, PyRt.eq, s_space, s_lpar, s_rpar, hg, hr,
+        str_join_iter, Mk.wrapParens, add]
 
 /-- the short cut: a one-element list whose element is a list or a tuple is formatted as that element, `first` passed on -/
 theorem format_list_single (n : Nat) (x first : PyVal) (hx : isinstance x ["list", "tuple"] = true) :
@@ -330,7 +328,7 @@ theorem normalize_fuel (O : PyMk.Oracle) : (n : Nat) → (l : List Mk.M) → dep
       simp only [hs', Function.comp_def]
     case hf =>
       intro i x s xs hx hs hxs
-      obtain ⟨res, s1, s2, s3, s4⟩ := s
+      obtain ⟨res, srest⟩ := s          -- `results` first, then however many other mutable locals the body has
       simp only at hs
       subst hs
       have hi : i < xs.length := by
